@@ -197,6 +197,9 @@ func zzvUseDamaged(base string, data []byte, names []string) (out zzvRestOut, af
 	if err := os.WriteFile(path, data, 0o666); err != nil {
 		panic(err)
 	}
+	if zzvRestAfterWrite != nil {
+		zzvRestAfterWrite(path)
+	}
 	f := w.newProc()
 	var cs []*Counter
 	for _, n := range names {
@@ -248,6 +251,9 @@ func zzvUseDamaged(base string, data []byte, names []string) (out zzvRestOut, af
 	}
 	return out, after, pend
 }
+
+// zzvRestAfterWrite, if set, edits the counter file at rest after its image was written (sparse growth).
+var zzvRestAfterWrite func(path string)
 
 func zzvValueSets(data []byte) map[string]map[uint64]bool { return zzvLenient(data) }
 
@@ -443,6 +449,40 @@ func TestVerifC05(t *testing.T) {
 			checkRest(fmt.Sprintf("R4:truncated-to=%d of %d", sz, len(full)), full[:sz])
 		}
 		use = []string{k1, k3, "fresh"}
+	}
+
+	// A counter file grown (sparsely) beyond 4 GiB at rest, with a bucket head and a record just below 2^32:
+	// 32-bit offset arithmetic must not wrap.
+	{
+		w := ref.NewCFWriter(zzvC10Meta())
+		baseNames = map[string]bool{k1: true}
+		w.Add(k1, 3)
+		d := w.Bytes()
+		const recOff = 0xFFFFFFE0
+		binary.LittleEndian.PutUint32(d[w.HdrLen+4+4*ref.FNV("fresh"):], recOff)
+		sparseOK := true
+		zzvRestAfterWrite = func(path string) {
+			fh, err := os.OpenFile(path, os.O_RDWR, 0)
+			if err != nil {
+				sparseOK = false
+				return
+			}
+			defer fh.Close()
+			if err := fh.Truncate(1<<32 + 65536); err != nil {
+				sparseOK = false
+				return
+			}
+			var rec [16]byte
+			binary.LittleEndian.PutUint32(rec[8:], 32|0xff000000)
+			if _, err := fh.WriteAt(rec[:], recOff); err != nil {
+				sparseOK = false
+			}
+		}
+		checkRest("R5:file grown sparsely to 4 GiB + 64 KiB, head of the bucket of \"fresh\" = 0xffffffe0, record there with a 32-byte name", d)
+		zzvRestAfterWrite = nil
+		if !sparseOK {
+			res.Note("R5: the scratch file system refused a sparse 4 GiB file; case skipped")
+		}
 	}
 
 	// (3) initial directory states.
